@@ -198,13 +198,22 @@ def x_assert(ctx, case):
     from .. import programs as _programs
     runner_factory = _programs.runner_factory_for(case.get("runner"))
 
+    hooked = set()
+
     class T(testtools.TestCase):
         if runner_factory is not None:
             run_tests_with = runner_factory      # the same TestCase under the Deferred runners
 
+        def addDetail(self, name, content_object):
+            # (a subclass overriding the documented hook: mismatch details and the failed expectation go through it)
+            hooked.add(name)
+            return super().addDetail(name, content_object)
+
         def setUp(self):
             super().setUp()
-            if where != "test":
+            if where == "cleanup":
+                self.addCleanup(self._body)      # the expectation / assertion is made while cleanups run
+            elif where != "test":
                 self._body()
                 if where == "setUp-then-skip":
                     self.skipTest("skipping after the expectation")
@@ -281,6 +290,8 @@ def x_assert(ctx, case):
         delivered = [e.payload.get("details") for e in log.events if e.name in recorders.OUTCOMES and e.payload]
         if delivered and delivered[0]:
             have = {k: v[1] for k, v in delivered[0].items()}
+        ctx.check(set(have) <= hooked, "mismatch-details.non-clobbering",
+                  lambda: {"attached without passing the subclass's addDetail": sorted(set(have) - hooked), **detail()})
         ok = all(have.get(name) == text.encode("utf8") for name, text in pre)
         for name, text in mdetails:
             hits = [k for k, v in have.items() if v == text.encode("utf8") and
@@ -494,7 +505,7 @@ def run(ctx):
         md = [[nm, "MM-%s" % nm] for nm in rng.sample(names, rng.randint(0, 3))]
         how = rng.choice(["assertThat", "assert_that", "expectThat"])
         ctx.execute("assert", {"expr": e, "value": rng.choice(vals), "how": how,
-                               "where": rng.choice(["test", "test", "setUp", "setUp-then-skip"])
+                               "where": rng.choice(["test", "test", "setUp", "setUp-then-skip", "cleanup"])
                                if how == "expectThat" else "test",
                                "message": rng.choice(MESSAGES), "verbose": rng.random() < 0.5,
                                "then": rng.choice([None, None, "match_after", "match_in_cleanup", "match_before"]),
